@@ -454,7 +454,7 @@ run_harness!(r_second_run, second_run_plain);
 // @stub std::hash::RandomState::new -> fixed keys
 // @assume multi-stakker,no-unsafe-queue build
 run_harness!(r_second_run_recreated, second_run_recreated);
-// @verif prop=C07,C08,C10,C15,C19,C18 tier=thorough timeout=1200 mem=24 unwind=12 unwindset=drop_glue::<\[.*Stakker\)>\]>\.0$:1,::advance\.1$:2,::advance\.0$:3,::add\.0$:2,::add\.1$:1
+// @verif prop=C07,C08,C10,C15,C19,C18 tier=off timeout=1200 mem=24 unwind=12 unwindset=drop_glue::<\[.*Stakker\)>\]>\.0$:1,::advance\.1$:2,::advance\.0$:3,::add\.0$:2,::add\.1$:1
 // @enc Stakker::{run,next_expiry} Core::{timer_add,timer_del,defer,now} Timers::{add,advance,del}
 // @sym timer expiry t0+(2..100 s); second run instant t0+(0..200 s): before, at, after the first (t0+1 s) and the expiry
 // @bound timer; run(t0+1 s); G; run(any); delete if pending; run(t0+300 s)
